@@ -27,6 +27,7 @@ type stateSpec struct {
 	InitErr  bool   `json:"initErr,omitempty"`
 	NextErr  bool   `json:"nextErr,omitempty"`
 	GateInit bool   `json:"gateInit,omitempty"`
+	GateRecv bool   `json:"gateRecv,omitempty"` // the first Receive of this state is held until released
 }
 
 type toyMessage struct {
@@ -87,6 +88,19 @@ type world struct {
 	cancel   context.CancelFunc
 	teardown chan struct{}
 
+	// burst schedules (burst.go): the slow Receive, the producer's counters, the compact observation
+	inGateRecv   bool
+	recvGate     chan struct{}
+	recvGateUsed map[int]bool
+	calls, rets  int
+	feederDone   bool
+	feederGoid   int64
+	execGoid     int64
+	handed       []*toyMessage
+	recvMsgs     []*toyMessage
+	sched        []uint64 // run lengths: handler returns, completed Receives, returns, ...
+	outcomeCoq   string
+
 	outcome   string
 	panicText string
 	nInit     int
@@ -96,7 +110,7 @@ type world struct {
 
 func newWorld(types []uint64, prog []stateSpec) *world {
 	w := &world{types: types, prog: prog, base: state.NewBaseAsyncState(), outcome: "running",
-		teardown: make(chan struct{})}
+		teardown: make(chan struct{}), recvGateUsed: map[int]bool{}}
 	w.cond = sync.NewCond(&w.mu)
 	return w
 }
@@ -154,8 +168,12 @@ func (w *world) deliver(m *toyMessage) {
 		return
 	}
 	if acc {
+		w.calls++
 		w.handler(m)
 		w.enq++
+		w.rets++
+		w.handed = append(w.handed, m)
+		w.noteSched(true)
 	}
 	w.append(fmt.Sprintf("EDeliver %s %v", m.Coq(), acc))
 }
@@ -244,10 +262,28 @@ func (s *toyState) Receive(msg net.Message) error {
 	}
 	w.mu.Lock()
 	defer w.mu.Unlock()
+	if w.prog[s.k].GateRecv && !w.recvGateUsed[s.k] {
+		// a slow Receive: the loop has taken the message out of its buffer and is busy with it
+		w.recvGateUsed[s.k] = true
+		w.inGateRecv = true
+		g := make(chan struct{})
+		w.recvGate = g
+		w.cond.Broadcast()
+		w.mu.Unlock()
+		select {
+		case <-g:
+		case <-w.teardown:
+		}
+		w.mu.Lock()
+	}
 	if m.valid {
 		w.base.ReceiveToHistory(msg)
 	}
 	w.recv++
+	if !w.frozen {
+		w.recvMsgs = append(w.recvMsgs, m)
+		w.noteSched(false)
+	}
 	for j := s.k + 1; j < len(w.prog); j++ {
 		if w.prog[j].Type == m.ty && w.prog[s.k].Type != m.ty {
 			w.early++
@@ -302,6 +338,9 @@ func (w *world) start(logger log.StandardLogger) {
 	w.cancel = cancel
 	machine := state.NewAsyncMachine(logger, ctx, &fakeChannel{w}, &toyState{w, 0})
 	go func() {
+		w.mu.Lock()
+		w.execGoid = goid()
+		w.mu.Unlock()
 		var last state.AsyncState
 		var err error
 		panicked := ""
@@ -335,6 +374,7 @@ func (w *world) start(logger log.StandardLogger) {
 		default:
 			w.outcome, w.panicText, out = "panic", "unexpected error: "+err.Error(), "AErrNext 9999%nat"
 		}
+		w.outcomeCoq = out
 		w.append("MDone (" + out + ")")
 		w.done = true
 		w.frozen = true
